@@ -49,6 +49,7 @@ type c17Step struct {
 	A   string `json:"a"` // Send | SendPacket | Recv | SendPing
 	Ch  int    `json:"ch"`
 	Len int    `json:"len"`
+	Nil bool   `json:"nil"` // a zero-length message is passed as a nil slice (TMMConnSys!Send, nilrep)
 }
 
 type c17Pkt struct {
@@ -294,6 +295,14 @@ func (s *c17Sender) project() map[string]interface{} {
 	return map[string]interface{}{"q": q, "sending": sending, "qsize": qsize}
 }
 
+// the two representations of a zero-length message a caller can pass to Send/TrySend
+func c17Rep(m []byte, nilrep bool) []byte {
+	if len(m) == 0 && nilrep {
+		return nil
+	}
+	return m
+}
+
 func c17Content(ch, n, ln int) []byte {
 	b := make([]byte, ln)
 	for k := range b {
@@ -356,10 +365,10 @@ func c17RunLockstep(lg *c17Log, run int, cfg c17Cfg, sc c17Sched, unit int) {
 		switch st.A {
 		case "Send":
 			n := s.seq[st.Ch] + 1
-			m := c17Content(st.Ch, n, st.Len)
+			m := c17Rep(c17Content(st.Ch, n, st.Len), st.Nil)
 			ch := s.mc.channelsIdx[byte(st.Ch)]
 			try := ch == nil || len(ch.sendQueue) >= cap(ch.sendQueue) || (n+st.Len)%2 == 0
-			lg.emit(map[string]interface{}{"ev": "Send", "run": run, "ch": st.Ch, "m": c17Ints(m), "try": try})
+			lg.emit(map[string]interface{}{"ev": "Send", "run": run, "ch": st.Ch, "m": c17Ints(m), "try": try, "nil": m == nil})
 			var ok bool
 			up := s.mc.IsRunning()
 			if try {
@@ -421,7 +430,7 @@ func c17RandomSched(rng *rand.Rand) (c17Cfg, c17Sched) {
 			if rng.Intn(12) != 0 && ln > rc {
 				ln = rc
 			}
-			sc.Steps = append(sc.Steps, c17Step{A: "Send", Ch: cfg.Chans[k], Len: ln})
+			sc.Steps = append(sc.Steps, c17Step{A: "Send", Ch: cfg.Chans[k], Len: ln, Nil: ln == 0 && (i/2+k)%2 == 0}) // derived, so that the seeded schedules stay what they were
 		case 4, 5, 6, 7:
 			sc.Steps = append(sc.Steps, c17Step{A: "SendPacket"})
 		default:
@@ -447,6 +456,7 @@ func c17RunConcurrent(lg *c17Log, run int, rng *rand.Rand, unit int) {
 		nmsg := 2 + rng.Intn(8)
 		lens := make([]int, nmsg)
 		tries := make([]bool, nmsg)
+		nils := make([]bool, nmsg)
 		for i := range lens {
 			p, rc := cfg.Payload, cfg.RCap[k]
 			sizes := []int{0, 1, p - 1, p, p + 1, 2 * p, 2*p + 1, rc - 1, rc, rng.Intn(rc + 1)}
@@ -458,6 +468,7 @@ func c17RunConcurrent(lg *c17Log, run int, rng *rand.Rand, unit int) {
 				lens[i] = rc
 			}
 			tries[i] = rng.Intn(3) == 0
+			nils[i] = (i/2+k)%2 == 0
 		}
 		wg.Add(1)
 		go func(k int, lens []int, tries []bool) {
@@ -465,8 +476,8 @@ func c17RunConcurrent(lg *c17Log, run int, rng *rand.Rand, unit int) {
 			ch := cfg.Chans[k]
 			n := 0
 			for i, ln := range lens {
-				m := c17Content(ch, n+1, ln)
-				lg.emit(map[string]interface{}{"ev": "Send", "run": run, "ch": ch, "m": c17Ints(m), "try": tries[i]})
+				m := c17Rep(c17Content(ch, n+1, ln), nils[i])
+				lg.emit(map[string]interface{}{"ev": "Send", "run": run, "ch": ch, "m": c17Ints(m), "try": tries[i], "nil": m == nil})
 				var ok bool
 				if tries[i] {
 					ok = s.mc.TrySend(byte(ch), m)
